@@ -11,7 +11,8 @@ filtered node views, mapping views of meta).  A history mutates the list through
     calls changed nothing.
 """
 from __future__ import annotations
-import copy, datetime, decimal, json
+import copy
+import intro, datetime, decimal, json
 from autobean_refactor import parser as _parser_mod, models
 from autobean_refactor.models import internal
 
@@ -520,6 +521,19 @@ def apply_op(fx: Fixture, op, rng=None) -> Step:
         st.via = 'assign'
         if not fx.raw_name:
             return st
+        if op.get('other'):
+            # ANOTHER repeated field of the same model is assigned as a whole: the views of THIS field (kept by the fixture)
+            # are views of a list nobody replaced - they go on following it
+            props = intro.api_props(type(fx.raw_owner))['rep'] if hasattr(intro, 'api_props') else {}
+            others = [nm for nm in sorted(props) if nm != fx.raw_name and getattr(fx.raw_owner, nm, None) is not fx.raw
+                      and nm.replace('_with_comments', '') != fx.raw_name.replace('_with_comments', '')]
+            if not others:
+                return st
+            nm = others[op.get('k', 0) % len(others)]
+            st.via = 'assign-other'
+            setattr(fx.raw_owner, nm, copy.deepcopy(getattr(fx.raw_owner, nm)))
+            st.bad += check_views(fx)
+            return st
         setattr(fx.raw_owner, fx.raw_name, copy.deepcopy(fx.raw))
         fx.raw = getattr(fx.raw_owner, fx.raw_name)
         fx.live = []
@@ -950,6 +964,8 @@ def gen_op(rng, fx: Fixture, ids, allow_errors=True):
         return {'t': 'move'}
     if registered and rng.random() < 0.04:
         return {'t': 'assign'}
+    if registered and rng.random() < 0.04:
+        return {'t': 'assign', 'other': True, 'k': rng.randrange(4)}
     if registered and rng.random() < 0.06:
         ty = rng.choice(fx.raw_tys)
         v = rng.randrange(50, 58)
